@@ -29,6 +29,8 @@ def make_frame(base, cells):
     with fsutil.quiet():
         v, e, c, info = T.realise(at, k=3, cmap=cm)
         fr = T.frame_of(v, e, c)
+    for n, cc in enumerate(fr.cells.values()):
+        cc.gt_pressure = 0.8 + 0.01 * n       # reference pressures as a Surface Evolver parse would leave them
     return fr
 
 
@@ -163,7 +165,10 @@ class Stress:
         # fresh frame with only the last assignment (history independence)
         fr2 = make_frame(base, cells)
         assign(fr2, a)
-        sig2, _, _ = tensor(fr2, grid, radius)
+        res2, ex = fsutil.call(tensor, fr2, grid, radius)
+        if ex is not None:
+            return {"viol": [{"what": "stress_tensor raised on a fresh frame", "detail": fsutil.exc_str(ex)}], "tags": tags, "cls": "exc"}
+        sig2 = res2[0]
         G2 = as_grid(sig2, grid)
         for rc in G:
             if not close(G[rc], G2[rc]):
@@ -176,13 +181,22 @@ class Stress:
             tags.append("linearity")
             frp = make_frame(base, cells)
             assign(frp, {"p": a["p"], "t": [0.0] * len(a["t"])})
-            Sp = as_grid(tensor(frp, grid, radius)[0], grid)
+            rp, ex = fsutil.call(tensor, frp, grid, radius)
+            if ex is not None:
+                return {"viol": [{"what": "stress_tensor raised with zero tensions", "detail": fsutil.exc_str(ex)}], "tags": tags, "cls": "exc"}
+            Sp = as_grid(rp[0], grid)
             frt = make_frame(base, cells)
             assign(frt, {"p": [0.0] * len(a["p"]), "t": a["t"]})
-            St = as_grid(tensor(frt, grid, radius)[0], grid)
+            rt, ex = fsutil.call(tensor, frt, grid, radius)
+            if ex is not None:
+                return {"viol": [{"what": "stress_tensor raised with zero pressures", "detail": fsutil.exc_str(ex)}], "tags": tags, "cls": "exc"}
+            St = as_grid(rt[0], grid)
             fr3 = make_frame(base, cells)
             assign(fr3, {"p": [2.5 * x for x in a["p"]], "t": [2.5 * x for x in a["t"]]})
-            S3 = as_grid(tensor(fr3, grid, radius)[0], grid)
+            r3, ex = fsutil.call(tensor, fr3, grid, radius)
+            if ex is not None:
+                return {"viol": [{"what": "stress_tensor raised", "detail": fsutil.exc_str(ex)}], "tags": tags, "cls": "exc"}
+            S3 = as_grid(r3[0], grid)
             for rc in G:
                 if not close(G2[rc], Sp[rc] + St[rc]) or not close(S3[rc], 2.5 * G2[rc]):
                     viol.append({"what": "tensor is not jointly linear in pressures and tensions", "detail": {"cell": rc}})
